@@ -61,9 +61,6 @@ type c01op struct {
 	implicit bool  // 'P' issued inside the library (network driver's privilege check): result not observed
 	nkind    int   // 'N': 0 nil slice, 1 empty slice, 2 empty file, 3 missing file
 	batch    int   // sends with the same id >= 0 go out in one SendCommands(FromFile) call
-	// the empty command under ExactMatchInput: the code waits for an echo that cannot come (finding
-	// C01-F16). Always the last operation of its session; judged apart from the model replay.
-	blankExact bool
 }
 
 // API flavours of a session.
@@ -316,15 +313,10 @@ func c01check(c *ctx, cases []c01case) {
 		}
 		lines = append(lines, l)
 	}
-	xAt := map[int]int{}
 	for i := range obs {
 		if cases[i].chanLog == 1 && obs[i].logLine != "" {
 			logAt[i] = len(lines)
 			lines = append(lines, obs[i].logLine)
-		}
-		if obs[i].xline != "" {
-			xAt[i] = len(lines)
-			lines = append(lines, obs[i].xline)
 		}
 	}
 	ans := c.ask(lines)
@@ -393,10 +385,8 @@ func c01check(c *ctx, cases []c01case) {
 				kind = fmt.Sprintf("N empty sequence kind %d", op.nkind)
 			case op.stopAt >= 0:
 				kind += " stopped by interim prompt " + facts.C01Interim[op.stopAt].Name
-			case op.blankExact:
-				kind = "S empty command, exact"
 			case c01isSend(op.kind) && cs.cmds[op.ci].cmd == "":
-				kind += " empty command"
+				kind += fmt.Sprintf(" empty command (exact:%v)", cs.exact)
 			}
 			res.Count("op:" + kind)
 			if dom {
@@ -423,7 +413,7 @@ func c01check(c *ctx, cases []c01case) {
 			if fb, _ := strconv.Atoi(f[6]); f[0] != "1" {
 				var dev []c01op
 				for _, op := range all {
-					if op.kind != 'N' && !op.blankExact {
+					if op.kind != 'N' {
 						dev = append(dev, op)
 					}
 				}
@@ -458,11 +448,6 @@ func c01check(c *ctx, cases []c01case) {
 			continue
 		}
 		bad := false
-		judgeX := false
-		if xi, ok := xAt[i]; ok {
-			xf := strings.Fields(ans[xi])
-			judgeX = len(xf) == 7 && xf[0] == "1" && xf[1] == "1"
-		}
 		mi := 0 // index into the model's result list (operations that reach the device)
 		for k, op := range all {
 			var desc string
@@ -474,31 +459,11 @@ func c01check(c *ctx, cases []c01case) {
 			default:
 				desc = fmt.Sprintf("operation %d %c %q", k, op.kind, cs.cmds[op.ci].cmd)
 			}
-			if op.kind != 'N' && !op.blankExact {
+			if op.kind != 'N' {
 				mi++
 			}
 			if op.implicit {
 				continue
-			}
-			if op.blankExact {
-				// judged as the property reads, on the exchange alone: the queue is drained (what
-				// precedes is in domain) and the device's answer to the bare return is well formed (the
-				// model running the same exchange in fuzzy mode, where the code does not wait for an echo)
-				if !judgeX {
-					break
-				}
-				res.Count("in-domain op:S empty command, exact (judged apart)")
-				if o.errs[k] == "" {
-					res.Fail("oracle", caseLine, desc+" was never run (earlier error)", "missing-result")
-					bad = true
-				} else if o.errs[k] != "nil" {
-					res.Fail("oracle", caseLine, fmt.Sprintf("%s (the empty command, ExactMatchInput) returned error class %s; the device answered the return with %q", desc, o.errs[k], cs.nl+cs.cmds[op.ci].out+cs.prompt), "error:"+o.errs[k]+":empty-command-exact")
-					bad = true
-				} else if want := c01expectedOp(cs, op); o.results[k] != want {
-					res.Fail("oracle", caseLine, fmt.Sprintf("%s (the empty command, ExactMatchInput): result %q, expected %q", desc, o.results[k], want), "wrong-result")
-					bad = true
-				}
-				break
 			}
 			if o.errs[k] == "" {
 				res.Fail("oracle", caseLine, desc+" was never run (earlier error)", "missing-result")
@@ -544,14 +509,6 @@ func c01check(c *ctx, cases []c01case) {
 			case op.kind == 'P':
 				wantLines = append(wantLines, "")
 				wantWrites = append(wantWrites, []byte(cs.ret))
-			case op.blankExact && !judgeX:
-				// not judged: what the device received for it is not either
-				if len(o.lines) > len(wantLines) {
-					o.lines = o.lines[:len(wantLines)]
-				}
-				if len(o.writes) > len(wantWrites) {
-					o.writes = o.writes[:len(wantWrites)]
-				}
 			case c01isSend(op.kind):
 				wantLines = append(wantLines, cs.cmds[op.ci].cmd)
 				wantWrites = append(wantWrites, []byte(cs.cmds[op.ci].cmd), []byte(cs.ret))
@@ -569,7 +526,7 @@ func c01check(c *ctx, cases []c01case) {
 		if o.aligned {
 			var impl []string
 			for k, op := range all {
-				if op.kind == 'N' || op.blankExact {
+				if op.kind == 'N' {
 					continue
 				}
 				if op.implicit {
